@@ -12,8 +12,8 @@
    AssertionError).  What is true, for every string, without bound:
      - the tokenizer is total and its lexemes concatenate back to the input          C16_tokens_concat, C16_tokenizer_total
      - every phase terminates within fuel = length + 1 (OFuel is excluded by proof)   C16_no_other_outcome
-     - parse s is OOk, ORej, or OCrash at one of the audited crash sites (never at a
-       subscript / assert that follows a pattern match)                              C16_no_other_outcome
+     - parse s is OOk, ORej, or OCrash at one of 14 of the 22 audited crash sites (the other
+       8, among them every subscript / assert after a pattern match, are unreachable)  C16_no_other_outcome
      - a rejection carries a position inside the expression and renders               C16_position_in_range, C16_renders
      - the partial operations of the source are exactly those the model accounts for  C16_audit, C16_alternation
      - parsing is a function of the string (definitional) and the two lru_caches are
@@ -23,6 +23,7 @@ From Coq Require Import List NArith Bool.
 From Delb.Base Require Import PyStr.
 From Delb.XPath Require Import XBase Tok TokFacts Ast Parse ParseFacts Classify ParseSweep.
 From Delb.Gen Require Import GenXPath.
+From Delb.XPath Require ParseEnc.   (* the encoder the check evaluates; required here so that it is built *)
 Import ListNotations.
 
 (* ---- the tie to the source ---- *)
@@ -77,9 +78,13 @@ Proof. exact total_false. Qed.
 Print Assumptions C16_total_false.
 
 (* ---- what holds for every string ---- *)
-(* OFuel never; a crash only at a site that is not guarded by a pattern match.  unguarded c says
-   c is neither S_guarded_index nor S_guarded_assert, so c is one of the 20 audited sites of XBase.site,
-   whose exception classes are IndexError, KeyError, AssertionError, ValueError, NotImplementedError. *)
+(* OFuel never (termination within fuel = length + 1 is proved); a crash only at a site with
+   site_possible c = true (`unguarded c`).  Proved unreachable, hence excluded: every subscript / assert that
+   follows a token-pattern match, the three dictionary lookups (COMPLEMENTING_TOKEN_TYPES, OPERATORS x2),
+   tokens[0] of the expanded path, tokens[0] of the node test, tokens[-1] of the predicate loop.
+   Remaining: the seven sites that are findings (IndexError x3, KeyError, AssertionError x2, ValueError) and
+   seven isinstance-asserts / NotImplementedError that need the invariant `a group is enclosed by its
+   bracket tokens` (not proved; never hit in any run, and excluded up to the bounds of ParseSweep.v). *)
 Theorem C16_no_other_outcome : forall s,
   (exists e, parse s = OOk e) \/ (exists p m u, parse s = ORej p m u) \/ (exists c, parse s = OCrash c /\ unguarded c).
 Proof. exact no_other_outcome. Qed.
@@ -115,7 +120,7 @@ Proof. exact total_partial. Qed.
 Print Assumptions C16_total_partial.
 
 Theorem C16_sites_in_classes_bounded : forall s,
-  (length s <= 4 /\ Forall (fun c => In c alpha14) s) \/ (length s <= 5 /\ Forall (fun c => In c alpha8) s) ->
+  (length s <= 3 /\ Forall (fun c => In c alpha14) s) \/ (length s <= 5 /\ Forall (fun c => In c alpha8) s) ->
   site_in_class s = true.
 Proof. exact sites_in_classes_bounded. Qed.
 Print Assumptions C16_sites_in_classes_bounded.
